@@ -509,7 +509,7 @@ func (m *c18Mat) execute(spec c18Spec) *c18Exec {
 			for k := 1; k < len(spec.Runs); k++ {
 				select {
 				case <-waiting:
-				case <-time.After(5 * time.Second):
+				case <-time.After(500 * time.Millisecond):
 				}
 			}
 			time.Sleep(3 * time.Millisecond) // let them reach the (blocking) Lock
@@ -518,7 +518,7 @@ func (m *c18Mat) execute(spec c18Spec) *c18Exec {
 		go func() { defer wg.Done(); runOne(0, w0) }()
 		select {
 		case <-inside:
-		case <-time.After(5 * time.Second):
+		case <-time.After(500 * time.Millisecond):
 		}
 		for i := 1; i < len(spec.Runs); i++ {
 			w := mk(i)
